@@ -452,6 +452,8 @@ def pyFloatOfStr (s : String) : R :=
   let digits := intPart ++ frac
   let n := digits.foldl (fun acc c => acc * 10 + (c.toNat - '0'.toNat)) 0
   let v := nearestDouble n frac.length
+  -- beyond the largest double Python answers `inf`, which is outside the value domain
+  if v ≥ 2 ^ 2098 then .error .unmodelled else
   .ok (.float (if neg then -v else v))
 
 /-- `int(i)` / `float(i)` attempts of `DataPath.from_str` on one token -/
